@@ -7,7 +7,7 @@ use crate::{
     choice::Choice,
     choice_point::ChoicePoint,
     container::Container,
-    json::{json_read, json_write},
+    json::{json_read, json_read::JsonReq, json_write},
     object::RTObject,
     path::Path,
     story_error::StoryError,
@@ -36,28 +36,32 @@ impl Flow {
         main_content_container: Rc<Container>,
         j_obj: &Map<String, serde_json::Value>,
     ) -> Result<Flow, StoryError> {
+        let output_stream = json_read::jarray_to_runtime_obj_list(
+            j_obj
+                .get("outputStream")
+                .ok_or(StoryError::BadJson("outputStream not found.".to_owned()))?
+                .req_array()?,
+            false,
+        )?;
+
+        let mut current_choices: Vec<Rc<Choice>> = Vec::new();
+        for o in json_read::jarray_to_runtime_obj_list(
+            j_obj
+                .get("currentChoices")
+                .ok_or(StoryError::BadJson("currentChoices not found.".to_owned()))?
+                .req_array()?,
+            false,
+        )? {
+            current_choices.push(o.into_any().downcast::<Choice>().map_err(|_| {
+                StoryError::BadJson("currentChoices holds something that is not a choice".to_owned())
+            })?);
+        }
+
         let mut flow = Self {
             name: name.to_string(),
             callstack: Rc::new(RefCell::new(CallStack::new(main_content_container.clone()))),
-            output_stream: json_read::jarray_to_runtime_obj_list(
-                j_obj
-                    .get("outputStream")
-                    .ok_or(StoryError::BadJson("outputStream not found.".to_owned()))?
-                    .as_array()
-                    .unwrap(),
-                false,
-            )?,
-            current_choices: json_read::jarray_to_runtime_obj_list(
-                j_obj
-                    .get("currentChoices")
-                    .ok_or(StoryError::BadJson("currentChoices not found.".to_owned()))?
-                    .as_array()
-                    .unwrap(),
-                false,
-            )?
-            .iter()
-            .map(|o| o.clone().into_any().downcast::<Choice>().unwrap())
-            .collect::<Vec<Rc<Choice>>>(),
+            output_stream,
+            current_choices,
         };
 
         flow.callstack.borrow_mut().load_json(
@@ -65,8 +69,7 @@ impl Flow {
             j_obj
                 .get("callstack")
                 .ok_or(StoryError::BadJson("loading callstack".to_owned()))?
-                .as_object()
-                .unwrap(),
+                .req_object()?,
         )?;
         let j_choice_threads = j_obj.get("choiceThreads");
 
@@ -149,24 +152,27 @@ impl Flow {
                 }
             }
 
-            self.callstack
+            let live_thread = self
+                .callstack
                 .borrow()
                 .get_thread_with_index(*choice.original_thread_index.borrow())
-                .map(|o| choice.set_thread_at_generation(o.clone()))
-                .or_else(|| {
+                .cloned();
+
+            match live_thread {
+                Some(thread) => choice.set_thread_at_generation(thread),
+                None => {
+                    let key = choice.original_thread_index.borrow().to_string();
                     let j_saved_choice_thread = j_choice_threads
-                        .and_then(|c| c.get(choice.original_thread_index.borrow().to_string()))
-                        .ok_or("loading choice threads")
-                        .unwrap();
-                    choice.set_thread_at_generation(
-                        Thread::from_json(
-                            &main_content_container,
-                            j_saved_choice_thread.as_object().unwrap(),
-                        )
-                        .unwrap(),
-                    );
-                    Some(())
-                });
+                        .and_then(|c| c.get(&key))
+                        .ok_or_else(|| {
+                            StoryError::BadJson(format!("Thread {key} of a saved choice not found"))
+                        })?;
+                    choice.set_thread_at_generation(Thread::from_json(
+                        &main_content_container,
+                        j_saved_choice_thread.req_object()?,
+                    )?);
+                }
+            }
         }
 
         Ok(())
